@@ -18,6 +18,7 @@ import (
 	"sort"
 	"strings"
 	"sync"
+	"sync/atomic"
 	"time"
 
 	"github.com/milvus-io/milvus/pkg/mq/common"
@@ -282,12 +283,18 @@ func dbID(db string) int64 {
 
 // ---------------- stream factory stub (CheckConnection only) ----------------
 
-type stubFactory struct{}
+type stubFactory struct{ down *atomic.Bool }
 
-func (stubFactory) NewMsgStream(ctx context.Context) (msgstream.MsgStream, error) {
+func (f stubFactory) NewMsgStream(ctx context.Context) (msgstream.MsgStream, error) {
+	if f.down != nil && f.down.Load() {
+		return nil, errors.New("message queue unreachable (injected)")
+	}
 	return &stubStream{}, nil
 }
-func (stubFactory) NewTtMsgStream(ctx context.Context) (msgstream.MsgStream, error) {
+func (f stubFactory) NewTtMsgStream(ctx context.Context) (msgstream.MsgStream, error) {
+	if f.down != nil && f.down.Load() {
+		return nil, errors.New("message queue unreachable (injected)")
+	}
 	return &stubStream{}, nil
 }
 func (stubFactory) NewMsgStreamDisposer(ctx context.Context) func([]string, string) error {
